@@ -8,6 +8,7 @@ Reset == /\ Rec[l].act.op = "reset"
          /\ act' = Rec[l].act /\ res' = R("ok", 0)
 Step == /\ Rec[l].act.op # "reset"
         /\ CASE Rec[l].act.op = "archive_update" -> ArchiveUpdate(Rec[l].arch)
+             [] Rec[l].act.op = "archive_into_population" -> ReinsertInto(Rec[l].pop)
              [] Rec[l].act.op \in UserMutOps -> UserMutation(Rec[l].act, Rec[l].pop)
              [] Rec[l].act.op = "user_select_replace" -> UserSelectReplace(Rec[l].act, Rec[l].pop)
              [] OTHER -> Do(Rec[l].act)
